@@ -18,6 +18,7 @@ RoundOK(x) == /\ ~x.deadlock
               /\ \A i \in 1..Len(x.results) : LET r == x.results[i] IN
                     /\ r.panic = ""
                     /\ (r.op = "get" /\ r.ok) => PairIssuedTogether(x, r)
+                    /\ (r.op = "get" /\ r.ok) => r.keyEnd = r.key              \* and stays what was returned, whatever happens to the client later (Destroy)
                     /\ (r.op = "get" /\ ~x.destroyMid) => r.ok          \* against a working KDC every request succeeds
                     /\ (r.op = "login" /\ ~x.destroyMid) => r.ok        \* (unless the client is destroyed concurrently)
                     /\ (r.op = "kdcs") => GetKDCsIsPermutation(x, r)
